@@ -8,8 +8,10 @@ Exit codes: 0 property held on everything explored (KNOWN-FINDING lines allowed)
 import argparse
 import json
 import os
+import shutil
 import subprocess
 import sys
+import tempfile
 import time
 
 from . import build
@@ -137,6 +139,22 @@ prop("C04", kind="sim", quick_runs=3000, thorough_s=600,
      assumptions=["which pairs MergeStructs accepts is C05's subject; runs in which it refuses the pair are counted and skipped"])
 
 
+prop("C21", kind="race", quick_runs=320, thorough_s=900, race=True, workers=8,
+     rule="one run = one simulated execution: 2-4 (thorough: up to 6) caller tasks as real goroutines under the seeded cooperative scheduler (exactly one "
+          "runnable at a time; mean preemption gap, starvation window and every switch drawn from the seed; yield points at every function entry, store and "
+          "lock operation of ygot's runtime packages and of the generated code), each with 2-5 (thorough: up to 9) operations: read-only operations on one "
+          "shared tree (Validate, EmitJSON, Marshal7951, ConstructIETFJSON, TogNMINotifications, GetNode, Diff, DiffWithAtomic, DeepCopy, EncodeTypedValue) "
+          "and/or Unmarshal / SetNode / UnmarshalSetRequest histories into private trees sharing one schema and one pool of input messages, with regexp-cache "
+          "evictions and failing operations mixed in; each task list is first run alone (reference), then all interleaved; oracles: race detector (scheduler "
+          "hand-offs are hidden from it), results identical to the solo run, termination; distinct = distinct (package, schedule hash, result trace); "
+          "non-trivial = at least one preemption or lock-contention switch happened, i.e. tasks really overlapped",
+     fault_kinds=["preemption", "lock_contention_switch", "starvation_window", "cache_eviction", "failing_operation"],
+     probes=["tasks_overlapped", "lock_observed_held_at_switch", "workload:readers", "workload:writers", "workload:mixed", "race_mode_runs", "interleaving_mode_runs"],
+     assumptions=["yield points are source-level: preemption inside un-instrumented dependencies (protobuf, regexp, encoding/json) is not explored, though races inside them are still seen because the whole binary is race-instrumented",
+                  "the race detector keeps a bounded access history per memory word, so a race whose first access is very old can be missed",
+                  "option structs are private per task (C21 does not declare them shared)"])
+
+
 def run_workers(binp, pid, tier, base_seed, total_runs, deadline_s, extra_args=None, env=None, workers=None):
     """Runs hsim over [base_seed, base_seed+total_runs) split across workers. Returns parsed lines."""
     workers = workers or min(NCPU, 16)
@@ -197,7 +215,7 @@ def replay_once(binp, pid, path, extra_args=None, env=None):
     return None, p
 
 
-def file_violations(pid, binp, results, info, extra_args=None, env=None):
+def file_violations(pid, binp, results, info, extra_args=None, env=None, minimiser=None):
     """Dedupes violations by signature, writes replay files, re-executes each in a fresh process.
     Returns (new_violations, known_hits, internal_errors)."""
     by_sig = {}
@@ -211,6 +229,7 @@ def file_violations(pid, binp, results, info, extra_args=None, env=None):
         if sig not in by_sig or size < by_sig[sig][1]:
             by_sig[sig] = (r, size)
     new, known, internal = [], [], []
+    minimised = 0
     os.makedirs(os.path.join(VERIF, "replays"), exist_ok=True)
     for sig in sorted(by_sig):
         r = by_sig[sig][0]
@@ -218,12 +237,28 @@ def file_violations(pid, binp, results, info, extra_args=None, env=None):
         k = match_known(pid, sig)
         safe = "".join(ch if ch.isalnum() else "_" for ch in sig)[:60]
         path = os.path.join(VERIF, "replays", "%s-%s-%d.json" % (pid, safe, r["seed"]))
+        if minimiser and r.get("case") and not k and minimised < 3:
+            try:
+                r["case"] = minimiser(binp, pid, r["case"], sig, extra_args, env)
+                minimised += 1
+            except Exception as e:  # minimisation is best effort; the unminimised case is still exact
+                log("minimisation failed: %s" % e)
         doc = {"property": pid, "seed": r["seed"], "violation": v, "case": r.get("case"), "repo_hash": info.get("repo_hash"),
                "how_to_replay": "./verifctl replay %s" % os.path.relpath(path, VERIF)}
         with open(path, "w") as f:
             json.dump(doc, f, indent=1)
         d, p = replay_once(binp, pid, path, extra_args, env)
-        if d is None or not d.get("violation") or d["violation"].get("signature") != v.get("signature"):
+        # a run can exhibit several violations of one defect (e.g. several racing access pairs);
+        # the replay must exhibit the filed one among them
+        got = set(((d or {}).get("extra") or {}).get("all_signatures") or [])
+        if d is not None and d.get("violation"):
+            got.add(d["violation"].get("signature"))
+        same_class = v.get("oracle") == "data-race" and any((g or "").startswith("C21:race:") for g in got)
+        # The race detector reports one access pair per racy address and per pair of stacks, once per
+        # process: which of several conflicting pairs of one defect it prints depends on what the process
+        # reported before. A fresh-process replay of a data race therefore has to show a race attributed
+        # to ygot, not necessarily the very same pair of source lines.
+        if v.get("signature") not in got and not same_class:
             internal.append("replay of %s did not reproduce the violation (%s): %s" % (path, v.get("oracle"), (p.stdout + p.stderr)[-1500:]))
             continue
         if k:
@@ -231,6 +266,95 @@ def file_violations(pid, binp, results, info, extra_args=None, env=None):
         else:
             new.append((v, path))
     return new, known, internal
+
+
+def _replay_has(binp, pid, case, sig, extra_args, env, tmpdir):
+    path = os.path.join(tmpdir, "cand.json")
+    with open(path, "w") as f:
+        json.dump({"property": pid, "case": case}, f)
+    d, _ = replay_once(binp, pid, path, extra_args, env)
+    if d is None:
+        return False
+    got = set(((d.get("extra") or {}).get("all_signatures")) or [])
+    if d.get("violation"):
+        got.add(d["violation"].get("signature"))
+    return sig in got
+
+
+def _ddmin(items, test, budget):
+    """Classic delta debugging on a list; test(sub) -> still fails. budget: [remaining candidate runs]."""
+    n = 2
+    while len(items) >= 2 and budget[0] > 0:
+        chunk = (len(items) + n - 1) // n
+        reduced = False
+        for start in range(0, len(items), chunk):
+            if budget[0] <= 0:
+                break
+            cand = items[:start] + items[start + chunk:]
+            budget[0] -= 1
+            if test(cand):
+                items = cand
+                n = max(2, n - 1)
+                reduced = True
+                break
+        if not reduced:
+            if chunk <= 1:
+                break
+            n = min(len(items), n * 2)
+    if len(items) == 1 and budget[0] > 0:
+        budget[0] -= 1
+        if test([]):
+            items = []
+    return items
+
+
+def minimise_schedule_case(binp, pid, case, sig, extra_args, env, budget_runs=60):
+    """Shrinks a C21 case (tasks, operations per task, explicit preemptions) by delta debugging.
+    Every candidate is executed in a fresh process; it is kept only if the same violation signature shows."""
+    import copy
+    tmpdir = tempfile.mkdtemp(prefix="verif-min-", dir=build.SCRATCH)
+    budget = [budget_runs]
+    try:
+        best = copy.deepcopy(case)
+
+        def ok(c):
+            return _replay_has(binp, pid, c, sig, extra_args, env, tmpdir)
+
+        # 1. preemptions: most violations here do not depend on where the switches fall
+        ex = (best.get("sched") or {}).get("explicit") or []
+        if ex:
+            def test_ex(sub):
+                c = copy.deepcopy(best)
+                c["sched"]["explicit"] = sub
+                return ok(c)
+            budget[0] -= 1
+            if test_ex([]):
+                best["sched"]["explicit"] = []
+            else:
+                best["sched"]["explicit"] = _ddmin(ex, test_ex, budget)
+        # 2. whole tasks (keep at least two)
+        i = 0
+        while len(best["tasks"]) > 2 and i < len(best["tasks"]) and budget[0] > 0:
+            c = copy.deepcopy(best)
+            del c["tasks"][i]
+            # preemptions name task indices: they are meaningless once a task is gone
+            c["sched"]["explicit"] = []
+            budget[0] -= 1
+            if ok(c):
+                best = c
+            else:
+                i += 1
+        # 3. operations of every task
+        for t in range(len(best["tasks"])):
+            def test_ops(sub, t=t):
+                c = copy.deepcopy(best)
+                c["tasks"][t] = sub
+                return ok(c)
+            best["tasks"][t] = _ddmin(best["tasks"][t], test_ops, budget)
+        best["minimised"] = {"candidate_runs": budget_runs - budget[0]}
+        return best
+    finally:
+        shutil.rmtree(tmpdir, ignore_errors=True)
 
 
 def write_evidence(pid, tier, seed, cov, assumptions, wall, violations):
@@ -264,9 +388,28 @@ def generic_check(pid, tier, seed):
         total, deadline = 10 ** 9, cfg["thorough_s"]
         # thorough is time-bounded: give each worker a large seed range and a deadline
         total = cfg.get("thorough_runs", 4000000)
-    results, errors = run_workers(binp, pid, tier, base, total, deadline, extra_args=cfg.get("args"))
-    internal = [r["internal"] for r in results if r.get("internal")]
-    new, known, rep_int = file_violations(pid, binp, results, info, extra_args=cfg.get("args"))
+    env = None
+    racedir = None
+    extra = list(cfg.get("args") or [])
+    hidesync = None
+    if cfg.get("race"):
+        um = json.load(open(info["sites"])).get("unmodelled_sync") or []
+        hidesync = not um
+        if um:
+            log("code under test uses synchronisation the lock shims do not model (%s ...): running with library synchronisation visible" % um[0])
+            extra.append("-hidesync=false")
+    cfg = dict(cfg, args=extra)
+    if cfg.get("race"):
+        racedir = tempfile.mkdtemp(prefix="verif-race-", dir=build.SCRATCH)
+        env = {"GORACE": "log_path=%s/race halt_on_error=0 exitcode=0 history_size=5" % racedir}
+    try:
+        results, errors = run_workers(binp, pid, tier, base, total, deadline, extra_args=cfg.get("args"), env=env, workers=cfg.get("workers"))
+        internal = [r["internal"] for r in results if r.get("internal")]
+        new, known, rep_int = file_violations(pid, binp, results, info, extra_args=cfg.get("args"), env=env,
+                                              minimiser=minimise_schedule_case if cfg.get("race") else None)
+    finally:
+        if racedir:
+            shutil.rmtree(racedir, ignore_errors=True)
     internal += rep_int
     wall = time.time() - t0
     run_wall = max(1e-6, wall - info.get("build_s", 0) if False else wall)
@@ -309,6 +452,13 @@ def generic_check(pid, tier, seed):
         "build": {"repo_hash": info.get("repo_hash"), "corpus": info.get("corpus"), "kind": info.get("kind")},
         "known_findings_hit": [k["signature"] for k, _, _ in known],
     }
+    if hidesync is not None:
+        cov["race_oracle"] = ("library-internal synchronisation hidden from the detector; only the mutexes of the code under test order tasks"
+                              if hidesync else "all synchronisation visible (code under test uses primitives the shims do not model)")
+        cov["race_reports_outside_ygot_ignored"] = sum((r.get("extra") or {}).get("race_reports_outside_ygot", 0) for r in results)
+        cov["schedule_measures"] = {"distinct_schedule_hashes": len(set((r.get("extra") or {}).get("sched_hash") for r in results)),
+                                    "preemptions": sum((r.get("extra") or {}).get("preempts", 0) for r in results),
+                                    "distinct_preempted_site_to_task_pairs_per_run_sum": sum((r.get("extra") or {}).get("switch_sites", 0) for r in results)}
     assumptions = [
         "sampling, not enumeration: a clean batch bounds nothing beyond the histories it visited",
         "the harness's own tree walker / reference model and the instrumenter's map-iteration rewrite are trusted",
